@@ -87,7 +87,7 @@ MUTANTS = [
   rep("\tif err := writer.Close(); err != nil {\n\t\tos.Remove(filePath)", "\tif err := writer.Close(); err != nil && !m.config.Verify {\n\t\tos.Remove(filePath)")),
  ("C23", "T11-equal-target-compares-keys-only", MIG,
   "targetEqualsLegacy compares the keys but not the values; needs a target file that has the same keys with a newer value (the V2 engine wrote to it since): the re-run deletes the V1 folder although the two differ",
-  rep(" || !bytes.Equal(data, entry.Data) {", " || data == nil {")),
+  rep(" || !bytes.Equal(data, entry.Data) {", " || !bytes.Equal(data[:0], entry.Data[:0]) {")),
  ("C23", "T12-close-does-not-fsync", "app/core/hydra/swamp/chronicler/v2/writer.go",
   "FileWriter.Close skips the fsync; needs the order of system calls: V1 files unlinked before the new file is durable",
   within("func (fw *FileWriter) Close() error {", "\tif err := fw.file.Sync(); err != nil {\n\t\tfw.file.Close()\n\t\treturn err\n\t}\n", "")),
